@@ -38,6 +38,9 @@ def gen_histories(tier, seed):
     add("event histories", 80, lambda: sg.events_history(rng, rng.randint(15, 80)))
     add("lazy histories", 80, lambda: sg.lazy_history(rng, rng.randint(8, 45)))
     add("purge histories", 60, lambda: sg.purge_history(rng))
+    add("lazy histories with several hundred pending actions", 4, lambda: sg.lazy_flood_history(rng))
+    add("lazy cascades 5 to 12 levels deep", 10, lambda: sg.lazy_chain_history(rng))
+    add("closures that create entities and queue insertions for them", 40, lambda: sg.lazy_purge_history(rng))
 
     def wide_wipe():
         """a few thousand entities, an irregular half of them deleted, delete_all, then creations: the handles
@@ -70,7 +73,7 @@ def _strip_ledger(line):
     return head.rstrip() if last.strip().startswith("98") else line
 
 
-def run_once(exe, hists, tag, order=None, twice=False, domain="world"):
+def run_once(exe, hists, tag, order=None, twice=False, domain="world", env=None):
     """transcript lines (by history position) of one fresh harness process"""
     d = common.run_dir()
     hf = os.path.join(d, "det_%s.txt" % tag)
@@ -80,7 +83,8 @@ def run_once(exe, hists, tag, order=None, twice=False, domain="world"):
             f.write(wg.encode(hists[k]) + "\n")
             if twice:
                 f.write(wg.encode(hists[k]) + "\n")
-    p = subprocess.run([exe, domain, hf], stdout=subprocess.PIPE, text=True, timeout=7200)
+    p = subprocess.run([exe, domain, hf], stdout=subprocess.PIPE, text=True, timeout=7200,
+                       env=None if env is None else dict(os.environ, **env))
     lines = p.stdout.rstrip("\n").split("\n") if p.stdout else []
     step = 2 if twice else 1
     if p.returncode != 0 or len(lines) != step * len(idx):
@@ -109,8 +113,13 @@ def check_determinism(pid, tier, seed):
     # (ambient thread state must not matter either); a panic in there would abort, hence only panic-free histories
     calm = [k for k in range(len(hists)) if a is not None and not _has_panic(a[k][0])]
     dres = run_once(exe, [hists[k] for k in calm], "d", domain="world-unwinding") if calm else []
+    # run E: other surroundings - a logger installed that listens at every level, lazy closures that take 9 ms each
+    eres = run_once(exe, hists, "e", env={"SV_AMBIENT": "1"})
     if any(crashed):
         violations.append(("the harness process crashed or lost output in run %s" % "ABC"[crashed.index(True)], None, None))
+    elif eres is None:
+        violations.append(("the harness process crashed or lost output in run E (a logger installed, slow lazy "
+                           "closures)", None, None))
     elif dres is None:
         violations.append(("the harness process crashed or lost output in run D (histories driven while a caller's "
                            "panic unwinds)", None, None))
@@ -124,7 +133,8 @@ def check_determinism(pid, tier, seed):
     if not any(crashed) and not violations:
         for k, h in enumerate(hists):
             outs = [("run A", a[k][0]), ("run B (fresh process)", b[k][0]),
-                    ("run C (after other worlds, first time)", c[k][0]), ("run C (second time in a row)", c[k][1])]
+                    ("run C (after other worlds, first time)", c[k][0]), ("run C (second time in a row)", c[k][1]),
+                    ("run E (a logger listening at every level, lazy closures taking 9 ms each)", eres[k][0])]
             for name, o in outs[1:]:
                 if o != outs[0][1]:
                     violations.append(("the same history gave different transcripts in run A and in %s" % name, h,
